@@ -32,6 +32,7 @@ import (
 	"net"
 	"os"
 	"runtime"
+	"strconv"
 	"sync"
 	"time"
 
@@ -580,7 +581,7 @@ func (c *checker) plainPhase() {
 	}
 	sub("curated")
 	// 2. random small streams, exhaustive
-	nSmall := mon.N(40, 2500)
+	nSmall := scale(mon.N(40, 2500))
 	for i := 0; i < nSmall; i++ {
 		if !mon.Mine(caseNo) {
 			caseNo++
@@ -598,7 +599,7 @@ func (c *checker) plainPhase() {
 	}
 	sub("small")
 	// 3. carbon-like streams up to 6 KB, random segmentations
-	nMed := mon.N(500, 12000)
+	nMed := scale(mon.N(500, 12000))
 	perMed := mon.N(10, 25)
 	for i := 0; i < nMed; i++ {
 		if !mon.Mine(caseNo) {
@@ -638,7 +639,7 @@ func (c *checker) plainPhase() {
 	}
 	sub("carbon")
 	// 4. streams up to 300 KB with lines at the limit
-	nLong := mon.N(30, 1500)
+	nLong := scale(mon.N(30, 1500))
 	perLong := mon.N(6, 12)
 	longLines := 0
 	for i := 0; i < nLong; i++ {
@@ -969,7 +970,7 @@ func (c *checker) listenerPhase() {
 
 	tPh := time.Now()
 	// ---- tcp, paced writes
-	nTCP := mon.N(500, 16000)
+	nTCP := scale(mon.N(500, 16000))
 	var mu sync.Mutex
 	conns, ntConns, tlines := 0, 0, 0
 	jobs := make(chan tcpCase)
@@ -1015,7 +1016,7 @@ func (c *checker) listenerPhase() {
 	res.Floor("tcp_connections", conns, mon.N(450, 15000))
 
 	// ---- udp
-	nUDP := mon.N(800, 25000)
+	nUDP := scale(mon.N(800, 25000))
 	uc, err := net.DialUDP("udp", nil, uaddr)
 	if err != nil {
 		panic(err)
@@ -1078,7 +1079,7 @@ func (c *checker) listenerPhase() {
 		panic("listener: " + err.Error())
 	}
 	ta2, _ := lt.VerifListenerAddrs()
-	nTO := mon.N(96, 2000)
+	nTO := scale(mon.N(96, 2000))
 	var wg2 sync.WaitGroup
 	sem := make(chan struct{}, 24)
 	stalls, stallsTimeoutSeen, stallsVoid := 0, 0, 0
@@ -1185,7 +1186,7 @@ func sentinel(j int) []byte { return []byte(fmt.Sprintf("\x00verif-amqp-sentinel
 func (c *checker) amqpPhase() {
 	res := c.res
 	seed := mon.Seed()
-	nCases := mon.N(60, 2500)
+	nCases := scale(mon.N(60, 2500))
 	bodiesTotal, linesTotal, nearLimit, finalCR := 0, 0, 0, 0
 	for i := 0; i < nCases; i++ {
 		if !mon.Mine(i) {
@@ -1261,6 +1262,18 @@ func (c *checker) amqpPhase() {
 	res.Count("amqp_lines_at_4k_limit", nearLimit)
 	res.Count("amqp_bodies_ending_in_bare_cr", finalCR)
 	res.Floor("amqp_bodies", bodiesTotal, mon.N(800, 40000))
+}
+
+// scale shrinks the case counts for monitor validation against mutants only
+// (C12_SCALE=25 runs a quarter; the floors then fail unless something fired).
+func scale(n int) int {
+	if v, err := strconv.Atoi(os.Getenv("C12_SCALE")); err == nil && v > 0 && v < 100 {
+		n = n * v / 100
+		if n < 1 {
+			n = 1
+		}
+	}
+	return n
 }
 
 func main() {
